@@ -154,6 +154,26 @@ def _safe(x):
         return repr(x)[:200]
 
 
+def caller_ordered(d, r):
+    """a copy of a diff as a CALLER may have assembled it: the entries of every mapping diff (string keys) in another
+    order than the sorted one nbdime's own builders produce - the order of a mapping diff's entries carries no meaning"""
+    import copy
+    d = copy.deepcopy(d)
+
+    def walk(lst):
+        if not isinstance(lst, list):
+            return
+        for e in lst:
+            if isinstance(e, dict) and isinstance(e.get("diff"), list):
+                walk(e["diff"])
+        if len(lst) >= 2 and all(isinstance(e, dict) and isinstance(e.get("key"), str) for e in lst):
+            lst.reverse()
+            if r.random() < 0.5:
+                r.shuffle(lst)
+    walk(d)
+    return d
+
+
 def run_shard(spec):
     from .. import nbd
     from ..gen_nb import NBGen, to_node
@@ -212,6 +232,12 @@ def run_shard(spec):
         mon.call("pretty_print_notebook", ["nb"], lambda n_: pp.pretty_print_notebook(n_, cfg), na, alias=False)
         mon.call("pretty_print_notebook_diff", ["a", "diff"], lambda x, y: pp.pretty_print_notebook_diff("a.ipynb", "b.ipynb", x, y, cfg), na, d, alias=False)
         mon.call("pretty_print_diff", ["a", "diff"], lambda x, y: pp.pretty_print_diff(x, y, "", cfg), na, d, alias=False)
+        if j % 2 == 0:
+            d2 = caller_ordered(d, r)
+            col.count("diffs_with_caller_ordered_mapping_entries")
+            mon.call("pretty_print_notebook_diff", ["a", "diff"], lambda x, y: pp.pretty_print_notebook_diff("a.ipynb", "b.ipynb", x, y, cfg), na, d2, alias=False)
+            mon.call("pretty_print_diff", ["a", "diff"], lambda x, y: pp.pretty_print_diff(x, y, "", cfg), na, d2, alias=False)
+            mon.call("patch_notebook", ["nb", "diff"], nbd.patch_notebook, na, d2, alias=False)
     # triples: decide, merge, apply, render decisions
     for j in range(spec["triples"]):
         gen = NBGen(r, exotic=(j % 5 == 0))
@@ -238,6 +264,14 @@ def run_shard(spec):
             pc = pp.PrettyPrintConfig(out=io.StringIO(), use_color=False)
             mon.call("pretty_print_merge_decisions", ["base", "decisions"], lambda x, y: pp.pretty_print_merge_decisions(x, y, pc), nb_, dec, alias=False)
             mon.call("apply_decisions", ["base", "decisions"], nbd.apply_decisions, nb_, dec)
+            if j % 2 == 0:
+                import copy as _copy
+                dec2 = _copy.deepcopy(dec)
+                for dd in dec2:
+                    for side in ("local_diff", "remote_diff", "custom_diff"):
+                        if isinstance(dd.get(side), list):
+                            dd[side] = caller_ordered(dd[side], r)
+                mon.call("pretty_print_merge_decisions", ["base", "decisions"], lambda x, y: pp.pretty_print_merge_decisions(x, y, pc), nb_, dec2, alias=False)
     if len(col.samples) < 1:
         col.sample({"functions_monitored": sorted(k[6:] for k in col.counters if k.startswith("calls:"))})
     return col.result()
